@@ -127,6 +127,13 @@ Section Sort.
     Qed.
   End Order.
 
+  (* sorting a list that is already in descending order changes nothing *)
+  Lemma sort_sorted_id l : StronglySorted (fun a b => geb a b = true) l -> sort_desc l = l.
+  Proof.
+    induction 1 as [|a t Ht IH Ha]; [reflexivity|]. cbn [sort_desc fold_right]. fold (sort_desc t). rewrite IH.
+    destruct t as [|y t']; [reflexivity|]. cbn [insert]. inversion Ha as [|? ? Hy _]; subst. now rewrite Hy.
+  Qed.
+
   Lemma first_some p l x : first p l = Some x -> In x l /\ p x = true.
   Proof.
     induction l as [|a t IH]; simpl; [discriminate|].
